@@ -104,6 +104,12 @@ def run(ctx):
     # fixed corpus: null-namespace types ("namespace": "" / null) nested in a namespaced type, their children, later references
     for c in sg.NULL_NS_CORPUS:
         cases.append((c, c, []))
+    # large fixed sizes (INTEGERS rule: plain decimal, no exponent), alone and nested
+    for size in (999999, 1000000, 1000001, 12345678, 2 ** 31 - 1, 10 ** 9):
+        c = {"type": "fixed", "name": "n.Big", "size": size}
+        cases.append((c, c, []))
+        c = {"type": "record", "name": "R", "fields": [{"name": "f", "type": ["null", {"type": "fixed", "name": "Big", "size": size}]}]}
+        cases.append((c, c, []))
     # witness of the fixed-point defect, re-run on every run
     w = {"type": "record", "name": "a.P", "fields": [{"name": "f", "type": {"type": "fixed", "name": "R", "namespace": "", "size": 1}}]}
     cases.append((w, w, []))
@@ -177,7 +183,7 @@ def run(ctx):
                                     ("null-namespace-type-nested-in-namespaced-record" if null_ns_nested else "other"))
     run_piecewise(ctx)
     run_bridge(ctx, [s for s, s2, e in cases[:(400 if ctx.quick() else 6000)]])
-    run_same_encoding(ctx, [(s, s2, e) for s, s2, e in cases if e][:(200 if ctx.quick() else 6000)])
+    run_same_encoding(ctx, [(s, s2, e) for s, s2, e in cases if e][:(120 if ctx.quick() else 6000)])
     ctx.notes["generator"] = stats
     ctx.notes["cosmetic_edits"] = edit_hist
     ctx.notes["rejected_schemas"] = both_raise
